@@ -8,7 +8,8 @@
 //! * then, up to `SHORT` hangs: it runs under the entry's short budget (still >= 200x the slowest valid input of
 //!   that kind, which the run checks at the end);
 //! * after that, or once the run has seen `GLOBAL` hangs in total and the entry has hung at least once: the probe
-//!   is skipped and counted (`probes_skipped_after_repeated_hang[entry]`), never as an evaluation.
+//!   is skipped and counted (`probes_skipped_after_repeated_hang[entry]`), never as an evaluation;
+//! * once the run has seen `GLOBAL` hangs, entries that never hung run under their short budget too.
 //!
 //! Hangs inside the separate Debug-call budget (0.25 s each) are cheap and are not entered here.
 
@@ -17,9 +18,9 @@ use std::{
     sync::atomic::{AtomicPtr, AtomicU64, Ordering::Relaxed},
 };
 
-pub const FULL: u64 = 3;
-pub const SHORT: u64 = 12;
-pub const GLOBAL: u64 = 40;
+pub const FULL: u64 = 2;
+pub const SHORT: u64 = 5;
+pub const GLOBAL: u64 = 12;
 const SLOTS: usize = 255;
 
 #[repr(C)]
@@ -45,8 +46,16 @@ pub enum Decision {
     Skip,
 }
 
+/// The ledger is keyed by reader KIND (`bcf` for `bcf:primary`, `bcf:eager`, `bcf:debug-fmt`: a defect that makes
+/// one API of a reader hang usually makes the others hang on the same inputs, and the probes of the APIs follow
+/// each other in a batch, so per-API accounting would pay the full budget once per API and child process); codec
+/// and query entries are keyed as they are.
+pub fn key(entry: &str) -> &str {
+    if entry.starts_with("codec:") || entry.starts_with("query:") { entry } else { entry.split(':').next().unwrap_or(entry) }
+}
+
 pub fn hash(entry: &str) -> u64 {
-    vcore::rng::fnv1a(entry.as_bytes()) | 1
+    vcore::rng::fnv1a(key(entry).as_bytes()) | 1
 }
 
 /// Maps (creating if necessary) the ledger file of this run. Without a ledger every probe runs normally.
@@ -104,9 +113,15 @@ fn slot(l: &'static Ledger, entry: &str, create: bool) -> Option<&'static Slot> 
 /// What to do with the next probe of `entry`.
 pub fn decide(entry: &str) -> Decision {
     let Some(l) = ledger() else { return Decision::Normal };
-    let Some(s) = slot(l, entry, false) else { return Decision::Normal };
+    let many = l.total_hangs.load(Relaxed) >= GLOBAL;
+    let Some(s) = slot(l, entry, many) else { return Decision::Normal };
     let n = s.hangs.load(Relaxed);
     if n == 0 {
+        // the run has already seen many hangs: every entry point runs under its short budget from now on
+        if many {
+            s.short_runs.fetch_add(1, Relaxed);
+            return Decision::Short;
+        }
         return Decision::Normal;
     }
     if n >= SHORT || l.total_hangs.load(Relaxed) >= GLOBAL {
